@@ -93,13 +93,16 @@ def run_cfg(ctx, p, cfg):
             if slot is not None and tgt == ("field", ("param", 1), str(slot[0])):
                 v = cf._rvalue(s["rv"], frozenset(), 20, b)
                 if v == ("const", "bool", True):
-                    trues.append((b, s))
+                    trues.append((b, None))
                 elif v == ("const", "bool", False):
                     pass
+                elif cmp_nf(v, True) is not None:
+                    # `flag = <comparison>`: true is stored exactly when the comparison holds (judged by O2)
+                    trues.append((b, v))
                 else:
                     bad.append(show(v))
-        r.require(len(trues) >= 1 and not bad, "true-only-inside-once-closure", fn=cf, detail="assignments of true through the captured flag: %d; non-constant assignments: %s" % (len(trues), bad))
-        ctx.extra["c17_true_sites"] = [(cf.path, b) for b, s in trues]
+        r.require(len(trues) >= 1 and not bad, "true-only-inside-once-closure", fn=cf, detail="assignments of true through the captured flag: %d; unrecognised assignments: %s" % (len(trues), bad))
+        ctx.extra["c17_true_sites"] = [(cf.path, b, v) for b, v in trues]
         # Once field is never re-created: aggregates of the ADT only in its constructor(s); no field write
         aggs = sorted({a[0].path for a in p.aggregates(ADT)})
         r.require(aggs == ["append::rolling_file::policy::compound::trigger::onstartup::OnStartUpTrigger::new"], "constructed-only-by-new",
@@ -118,15 +121,19 @@ def run_cfg(ctx, p, cfg):
         adt = p.adt(ADT)
         ms = [x["name"] for x in adt["variants"][0]["fields"] if x["ty"] == "u64"]
         sites = ctx.extra.get("c17_true_sites", [])
-        for (path, b) in sites:
+        for (path, b, vexpr) in sites:
             conds = cf.conditions(b)
-            r.require(len(conds) == 1, "single-guard", fn=cf, detail="the true-assignment has exactly one controlling branch (found %d)" % len(conds))
-            for sb, si, al in conds:
-                labs = {si.label(v) for v, _ in al}
+            # the condition under which true is stored: the single controlling branch of `flag = true`,
+            # or the comparison itself when the flag is assigned a comparison unconditionally
+            guards = [(si.discr, {si.label(v) for v, _ in al}) for sb, si, al in conds]
+            if vexpr is not None:
+                guards.append((vexpr, {True}))
+            r.require(len(guards) == 1, "single-guard", fn=cf, detail="the true-assignment has exactly one controlling condition (found %d)" % len(guards))
+            for discr, labs in guards:
                 if labs not in ({True}, {False}):
                     r.fail("guard-shape", fn=cf, detail="unrecognised guard edges %s" % labs)
                     continue
-                nf = cmp_nf(si.discr, True in labs)
+                nf = cmp_nf(discr, True in labs)
                 ok = False
                 if nf:
                     op, a, b2 = nf
@@ -134,7 +141,7 @@ def run_cfg(ctx, p, cfg):
                     is_min = lambda e: e[0] == "field" and e[2] in ms
                     is_len = lambda e: e[0] == "call" and e[1] == rolling.LEN_EST
                     ok = op == "Le" and is_min(a) and is_len(b2)
-                r.require(ok, "len-ge-min_size", fn=cf, detail="guard normal form: %s" % (show(("nf",) + nf, 5) if nf else show(si.discr, 5)))
+                r.require(ok, "len-ge-min_size", fn=cf, detail="guard normal form: %s" % (show(("nf",) + nf, 5) if nf else show(discr, 5)))
         r.require(bool(sites), "has-true-site", detail="true-assignment sites: %s" % sites)
 
     with ctx.rule("O3", "first record, before the write", cfg) as r:
